@@ -12,6 +12,7 @@ tree spec (JSON-able):
   ['byconsp', child, aspec (None | int | dict), preselector]   ByConstituency with a preselector
   ['adj', calc, child]   AdjustedSeatCount; calc: ['calc', id, kind, params] (a calculator object as a part: 'allow' / 'level' over a
                          leaf spec, 'levelbyc') | ['allow', tree] | ['level', tree] (AllowOverhang / LevelOverhang over a tree: embedded)
+                         | ['levelc', constituency tree, overall tree | None] (LevelOverhangByConstituency over trees: embedded)
 """
 import inspect
 from fractions import Fraction
@@ -246,6 +247,9 @@ class Built:
             c = t[1]
             if c[0] == 'calc':
                 calc = self.parts.setdefault(c[1], mk_calc(c[2], c[3]))
+            elif c[0] == 'levelc':
+                ce = self._b(c[1])
+                calc = core.LevelOverhangByConstituency(ce, self._b(c[2]) if c[2] is not None else None)
             else:
                 calc = (core.AllowOverhang if c[0] == 'allow' else core.LevelOverhang)(self._b(c[1]))
             o = core.AdjustedSeatCount(calc, self._b(t[2]))
@@ -301,6 +305,10 @@ def wire(t):
             return '(18 %d %s)' % (c[1], wire(t[2]))
         if c[0] == 'allow':
             return '(19 %s %s)' % (wire(c[1]), wire(t[2]))
+        if c[0] == 'levelc':
+            if c[2] is None:
+                return '(23 %s %s %d)' % (wire(c[1]), wire(t[2]), LEVEL_FUEL)
+            return '(22 %s %s %s %d)' % (wire(c[1]), wire(c[2]), wire(t[2]), LEVEL_FUEL)
         return '(20 %s %s %d)' % (wire(c[1]), wire(t[2]), LEVEL_FUEL)
     if k == 'byconsp':
         a = t[2]
@@ -560,6 +568,38 @@ class Hand:
         c = t[1]
         if c[0] == 'calc':
             a = self.parts[c[1]].calculate(votes, n_seats, prev_gains=prev_gains, max_seats=max_seats)
+        elif c[0] == 'levelc':    # the house grows until every party's share covers, constituency by constituency, what it holds there
+            def totals(nested):
+                out = {}
+                for v in nested.values():
+                    for p, x in v.items():
+                        out[p] = out.get(p, 0) + x
+                return out
+            cty = self.run(c[1], votes, n_seats=n_seats, max_seats=max_seats)
+            lowest = {}
+            for con, res in cty.items():
+                for p, s in res.items():
+                    lowest[p] = lowest.get(p, 0) + max(prev_gains.get(con, {}).get(p, 0), s)
+            for con, g in prev_gains.items():
+                for p, x in g.items():
+                    if p in lowest and p not in cty.get(con, {}):
+                        lowest[p] += x
+            drop = sum(x for g in prev_gains.values() for p, x in g.items() if p not in lowest)
+            h = n_seats - drop
+            if c[2] is not None:
+                nat = totals(votes)
+                overall = lambda k: self.run(c[2], nat, n_seats=k, max_seats=max_seats)   # noqa
+            else:
+                overall = lambda k: totals(self.run(c[1], votes, n_seats=k, max_seats=max_seats))   # noqa
+            share = overall(h)
+            for _ in range(LEVEL_FUEL + 1):
+                if not any(share.get(p, 0) < m for p, m in lowest.items()):
+                    break
+                h += 1
+                share = overall(h)
+            else:
+                raise OutOfFuel()
+            a = h + drop - n_seats
         elif c[0] == 'allow':     # every party keeps the seats it holds beyond its proportional share
             share = self.run(c[1], votes, n_seats=n_seats, max_seats=max_seats)
             a = sum(max(0, g - share.get(p, 0)) for p, g in prev_gains.items())
